@@ -14,7 +14,9 @@ import (
 	"sort"
 	"strconv"
 	"strings"
+	"sync"
 
+	"github.com/cosmos/cosmos-proto/zzverif/glue"
 	"google.golang.org/protobuf/proto"
 	"google.golang.org/protobuf/reflect/protoreflect"
 )
@@ -275,6 +277,10 @@ func fpRV(sb *strings.Builder, rv reflect.Value, depth int) {
 			if n == "state" || n == "DoNotCompare" || n == "DoNotCopy" || n == "atomicMessageInfo" {
 				continue
 			}
+			if n == "sizeCache" && !isSubjectStruct(t) {
+				// protobuf-go's own generated types (well-known types) legitimately cache sizes
+				continue
+			}
 			sb.WriteString(n + ":")
 			fpRV(sb, rv.Field(i), depth+1)
 			sb.WriteString(";")
@@ -338,4 +344,19 @@ func hash64(s []byte) uint64 {
 	h := fnv.New64a()
 	h.Write(s)
 	return h.Sum64()
+}
+
+var (
+	subjStructOnce  sync.Once
+	subjStructTypes map[reflect.Type]bool
+)
+
+func isSubjectStruct(t reflect.Type) bool {
+	subjStructOnce.Do(func() {
+		subjStructTypes = map[reflect.Type]bool{}
+		for _, s := range glue.All() {
+			subjStructTypes[reflect.TypeOf(s.Zero).Elem()] = true
+		}
+	})
+	return subjStructTypes[t]
 }
